@@ -119,9 +119,9 @@ def lean_axioms(theorems, imports):
     res = {t: None for t in theorems}
     text = out + err
     # "'Name' depends on axioms: [a, b]"  or "'Name' does not depend on any axioms"
-    for m in re.finditer(r"'([^']+)' depends on axioms: \[([^\]]*)\]", text, re.S):
+    for m in re.finditer(r"^'(.+?)' depends on axioms: \[([^\]]*)\]", text, re.M):
         res[m.group(1)] = [a.strip() for a in m.group(2).replace("\n", " ").split(",") if a.strip()]
-    for m in re.finditer(r"'([^']+)' does not depend on any axioms", text):
+    for m in re.finditer(r"^'(.+?)' does not depend on any axioms", text, re.M):
         res[m.group(1)] = []
     return res, text
 
